@@ -19,6 +19,12 @@ IR (hashable tuples):
  ("copy", L) ("removeone", L, x) ("appended", L, x)
  ("phi", cond, a, b) ("carried", name, loop) ("acc", name) ("unknown", text)
  ("lambda", (("bv", param, uid), ...), body)      a lambda / a nested single-return def used as a value
+ ("raise", exc)                                   leaf of the phi value of an inlined helper on a path that raises (Flow(raise_arms=True))
+
+simp also reads stdlib spellings as the displays / comprehensions they are equal to: functools.reduce over a display (unfolded),
+map(f, X) (a generator), [a, *[b, c]] (one display), [f(x) for x in L][a:b] and [..][k] (slice / element moved inside), format(),
+getattr(x, "name"); Flow reads "text %s" % (..) and "text {}".format(..) as f-strings.  as_map / as_dict_map view list- and dict-valued
+IR as one map over a base sequence / table.
 """
 from __future__ import annotations
 
@@ -168,10 +174,13 @@ def expand_procedures(func: ast.FunctionDef, resolver, depth: int = 0) -> ast.Fu
 class Flow:
     def __init__(self, func: ast.FunctionDef, file: str = "", consts: dict | None = None,
                  self_name: str | None = None, keep_arms: bool = False, resolver=None, _depth: int = 0, _env: dict | None = None,
-                 proc_resolver=None, func_resolver=None):
+                 proc_resolver=None, func_resolver=None, raise_arms: bool = False):
         # proc_resolver: name -> FunctionDef of a helper PROCEDURE of the same class, expanded in place as statements
         # func_resolver: name -> FunctionDef of a small pure MODULE-LEVEL helper function called by its bare name (inlined)
+        # raise_arms: an inlined helper's `raise` paths become ("raise", exc) leaves of the phi value (a dispatch chain moved into a
+        #             helper keeps its refusing arms); without it a helper that can raise stays an opaque call
         self.func_resolver = func_resolver
+        self.raise_arms = raise_arms
         if proc_resolver is not None and _depth == 0:
             func = expand_procedures(func, proc_resolver)
         self.keep_arms = keep_arms
@@ -193,6 +202,7 @@ class Flow:
         self._if_tests: dict = {}
         self._loop_stored: list = []
         self.consts = consts or {}
+        self.records = getattr(func, "_sa_records", None) or {}
         self.acc = self._find_acc(func)
         a = func.args
         allargs = a.posonlyargs + a.args + a.kwonlyargs
@@ -272,7 +282,27 @@ class Flow:
         return self.lookup(n.id)
 
     def e_Attribute(self, n):
-        return ("attr", self.ev(n.value), n.attr)
+        base = self.ev(n.value)
+        r = self._record_field(base, n.attr)
+        return r if r is not None else ("attr", base, n.attr)
+
+    def _record_field(self, base, field):
+        """`R(a, b).f` with R a record type of the module (typing.NamedTuple / collections.namedtuple, see core._Canon._records) is the
+        argument bound to field f -- also when the record reaches this point as the element of a list of such records"""
+        recs = self.records
+        if not recs or not isinstance(base, tuple) or base[0] not in ("call", "elem", "bv", "sub", "item", "phi"):
+            return None
+        b = base if base[0] == "call" else simp(base)
+        if b[0] == "call" and b[1][0] == "global" and b[1][1] in recs and field in recs[b[1][1]] and b[1][1] not in self.env:
+            fields = recs[b[1][1]]
+            args, kws = b[2], dict(b[3])
+            if any(isinstance(a, tuple) and a and a[0] == "star" for a in args) or "**" in kws or len(args) > len(fields):
+                return None
+            i = fields.index(field)
+            if i < len(args):
+                return args[i]
+            return kws.get(field)
+        return None
 
     def e_JoinedStr(self, n):
         parts = []
@@ -325,7 +355,69 @@ class Flow:
                 return (("fmt", v, None, -1),)
             if textual(l) or textual(r):
                 return flatten_fstr(("fstr", parts(l) + parts(r)))
+        if isinstance(n.op, ast.Mod) and l[0] == "const" and isinstance(l[1], str):
+            # "text %s text" % (a, b): printf-style formatting with a literal format is the f-string it is equal to
+            fs = self._percent_to_fstr(l[1], r)
+            if fs is not None:
+                return fs
         return ("binop", type(n.op).__name__, l, r)
+
+    @staticmethod
+    def _percent_to_fstr(text, arg):
+        """'%s * pow(T, %10.3e)' % (a, b) as the f-string it is equal to (%s %d %i %f %e %g %r with flags / width / precision, %%,
+        %(name)s with a dict display); None for anything else (*, unknown conversions, wrong number of arguments)."""
+        import re as _re
+        args = list(arg[1]) if arg[0] == "tuple" else None
+        named = {k[1]: v for k, v in arg[1] if k[0] == "const"} if arg[0] == "dict" else None
+        parts, pos, auto = [], 0, 0
+        for m in _re.finditer(r"%(?:\((\w+)\))?([-+ 0#]*)(\d+)?(?:\.(\d+))?([sdifeEgGr%])", text):
+            if m.start() > pos:
+                parts.append(("const", text[pos:m.start()]))
+            pos = m.end()
+            name, flags, width, prec, conv = m.groups()
+            if conv == "%":
+                if name or flags or width or prec:
+                    return None
+                parts.append(("const", "%"))
+                continue
+            if name is not None:
+                if named is None or name not in named:
+                    return None
+                val = named[name]
+            elif named is not None:
+                return None
+            elif args is None:
+                if auto:
+                    return None
+                val = arg
+                auto += 1
+            else:
+                if auto >= len(args) or args[auto][0] == "star":
+                    return None
+                val = args[auto]
+                auto += 1
+            if "#" in flags or " " in flags:
+                return None
+            spec = ("<" if "-" in flags else "") + ("+" if "+" in flags else "") + ("0" if "0" in flags and "-" not in flags else "") + (width or "") \
+                + ("." + prec if prec is not None else "")
+            if conv in "sr":
+                spec = (">" + spec if width and "-" not in flags else spec) if spec else ""
+            else:
+                spec += "d" if conv == "i" else conv
+            if conv in "sr" and not spec:
+                if conv == "s" and val[0] == "const" and isinstance(val[1], str):
+                    parts.append(val)
+                else:
+                    parts.append(("fmt", val, None, ord("r") if conv == "r" else -1))
+            else:
+                parts.append(("fmt", val, spec or None, ord("r") if conv == "r" else -1))
+        if "%" in _re.sub(r"%(?:\((\w+)\))?([-+ 0#]*)(\d+)?(?:\.(\d+))?([sdifeEgGr%])", "", text):
+            return None
+        if args is not None and auto != len(args):
+            return None
+        if pos < len(text):
+            parts.append(("const", text[pos:]))
+        return flatten_fstr(("fstr", tuple(parts)))
 
     def e_UnaryOp(self, n):
         return ("unop", type(n.op).__name__, self.ev(n.operand))
@@ -553,9 +645,10 @@ class Flow:
                 if preset[p_] is None:
                     return None
         sub = Flow(callee, self.file, keep_arms=False, resolver=self.resolver, _depth=self._depth + 1, _env=preset, consts=self.consts,
-                   func_resolver=self.func_resolver)
-        rets = [(f.value, list(f.guards)) for f in sub.facts if f.kind == "return"]
-        if not rets or any(f.kind in ("store", "augstore", "attrstore", "append", "mutate") for f in sub.facts):
+                   func_resolver=self.func_resolver, raise_arms=self.raise_arms)
+        rets = [(f.value if f.kind == "return" else ("raise", f.value if f.value is not None else ("const", None)), list(f.guards))
+                for f in sub.facts if f.kind == "return" or (f.kind == "raise" and self.raise_arms)]
+        if not any(f.kind == "return" for f in sub.facts) or any(f.kind in ("store", "augstore", "attrstore", "append", "mutate") for f in sub.facts):
             return None
 
         return phi_of_paths(rets)
@@ -1263,6 +1356,48 @@ def projection(x, e):
     return None
 
 
+def as_dict_map(v):
+    """View a dict-valued IR as `{kbody: vbody for K, X in T.items() if filters}`  ->  (K, X, kbody, vbody, T, filters) or None, with
+    K / X bound variables standing for a key of T and its value.  Understood: T itself, copies (`T.copy()`, `dict(T)`), a dict
+    comprehension over `T.items()` (or over a map of it), `dict(zip(<unfiltered map over T / T.keys()>, <unfiltered map over
+    T.values()>))` and `dict(<pairs>)` -- the spellings of "T re-keyed / re-valued entry by entry"."""
+    K, X = ("bv", "_k", next(_fresh)), ("bv", "_v", next(_fresh))
+    while v[0] == "copy" or (v[0] == "call" and v[1] in (("global", "dict"), ("global", "OrderedDict")) and len(v[2]) == 1 and not v[3] and v[2][0][0] != "comp"
+                             and not (v[2][0][0] == "call" and v[2][0][1] == ("global", "zip"))):
+        v = v[1] if v[0] == "copy" else v[2][0]
+    if v[0] == "call" and v[1] in (("global", "dict"), ("global", "OrderedDict")) and len(v[2]) == 1 and not v[3]:
+        inner = v[2][0]
+        if inner[0] == "call" and inner[1] == ("global", "zip") and len(inner[2]) == 2 and not inner[3]:
+            mk, mv = as_map(inner[2][0]), as_map(inner[2][1])
+            if mk is None or mv is None or mk[3] or mv[3]:
+                return None
+            tk = mk[2][1] if mk[2][0] == "meth" and mk[2][2] == "keys" and not mk[2][3] else mk[2]
+            if not (mv[2][0] == "meth" and mv[2][2] == "values" and not mv[2][3] and mv[2][1] == tk):
+                return None
+            return (K, X, simp(subst(mk[1], {mk[0]: K})), simp(subst(mv[1], {mv[0]: X})), tk, ())
+        if inner[0] == "comp" and inner[1] in ("list", "gen"):
+            v = ("comp", "dict", inner[2], inner[3])        # dict(<pairs>) of a comprehension of pairs
+        else:
+            return None
+    if v[0] == "comp" and v[1] == "dict" and len(v[3]) == 1:
+        tg, it, ifs = v[3][0]
+        if v[2][0] != "tuple" or len(v[2][1]) != 2:
+            return None
+        if it[0] == "meth" and it[2] == "items" and not it[3] and tg is not None and tg[0] == "tuple" and len(tg[1]) == 2 \
+                and all(t is not None and t[0] == "bv" for t in tg[1]):
+            sub = {tg[1][0]: K, tg[1][1]: X}
+            return (K, X, simp(subst(v[2][1][0], sub)), simp(subst(v[2][1][1], sub)), it[1], tuple(simp(subst(c, sub)) for c in ifs))
+        if tg is not None and tg[0] == "bv" and (it[0] in ("attr", "param", "global") or (it[0] == "meth" and it[2] == "keys" and not it[3])):
+            # over the keys, the value looked up: {f(k): T[k] for k in T}
+            T = it[1] if it[0] == "meth" else it
+            sub = {("sub", T, tg): X, tg: K}
+            return (K, X, simp(subst(v[2][1][0], sub)), simp(subst(v[2][1][1], sub)), T, tuple(simp(subst(c, sub)) for c in ifs))
+        return None
+    if v[0] in ("attr", "param", "global"):
+        return (K, X, K, X, v, ())
+    return None
+
+
 def seq_base(v):
     """Base sequence of a position-preserving (unfiltered, one-to-one) view, else None."""
     if v[0] in ("phi", "ifexp"):
@@ -1341,6 +1476,55 @@ def simp(v):
     if k == "meth" and v[1][0] == "call" and v[1][1] == ("attr", ("global", "re"), "compile") and len(v[1][2]) == 1 and not v[1][3] and not v[4] \
             and v[2] in _RE_NARGS and _RE_NARGS[v[2]][0] <= len(v[3]) <= _RE_NARGS[v[2]][1]:
         return ("meth", ("global", "re"), v[2], (v[1][2][0],) + tuple(v[3]), ())
+    # functools.reduce(lambda acc, x: body, <display of known elements>, init) is the left fold written out:
+    # body[acc:=body[acc:=init, x:=e1], x:=e2] ...   (e.g. a chain of str.replace driven by a table of pairs)
+    if k == "call" and v[1] in (("global", "reduce"), ("attr", ("global", "functools"), "reduce")) and len(v[2]) == 3 and not v[3] \
+            and v[2][0][0] == "lambda" and len(v[2][0][1]) == 2 and v[2][1][0] in ("tuple", "list") and len(v[2][1][1]) <= 16 \
+            and not any(e[0] == "star" for e in v[2][1][1]):
+        (p_acc, p_x), body = v[2][0][1], v[2][0][2]
+        acc = v[2][2]
+        for e in v[2][1][1]:
+            acc = simp(subst(body, {p_acc: acc, p_x: e}))
+        return acc
+    # map(f, X) is the generator (f(x) for x in X)
+    if k == "call" and v[1] == ("global", "map") and len(v[2]) == 2 and not v[3] and v[2][0][0] in ("global", "attr", "lambda", "param"):
+        bv = ("bv", "_m", next(_fresh))
+        fv = v[2][0]
+        elt = simp(subst(fv[2], {fv[1][0]: bv})) if fv[0] == "lambda" and len(fv[1]) == 1 else ("call", fv, (bv,), ())
+        return ("comp", "gen", elt, ((bv, v[2][1], ()),))
+    # a display with a starred display inside is one display: [a, *[b, c], d] == [a, b, c, d]
+    if k in ("list", "tuple", "set") and any(e[0] == "star" and e[1][0] in ("list", "tuple") for e in v[1]):
+        elts = []
+        for e in v[1]:
+            if e[0] == "star" and e[1][0] in ("list", "tuple"):
+                elts.extend(e[1][1])
+            else:
+                elts.append(e)
+        return simp((k, tuple(elts)))
+    # a slice of an unfiltered one-to-one list comprehension is the comprehension over the slice: [f(x) for x in L][a:b] == [f(x) for x in L[a:b]]
+    if k == "sub" and v[2][0] == "slice" and v[1][0] == "comp" and v[1][1] == "list" and len(v[1][3]) == 1 and not v[1][3][0][2] \
+            and v[1][3][0][0] is not None and v[1][3][0][0][0] == "bv":
+        tg, it, _ = v[1][3][0]
+        return simp(("comp", "list", v[1][2], ((tg, ("sub", it, v[2]), ()),)))
+    # ... and one element of it is the element expression at that position: [f(x) for x in L][k] == f(L[k])  (also when the
+    # comprehension is destructured: `a, *mid, z = [f(x) for x in L]`)
+    if k in ("sub", "item") and v[1][0] == "comp" and (v[1][1] == "list" or (v[1][1] == "gen" and k == "item")) and len(v[1][3]) == 1 and not v[1][3][0][2] \
+            and v[1][3][0][0] is not None and v[1][3][0][0][0] == "bv":
+        tg, it, _ = v[1][3][0]
+        pos = v[2]
+        if k == "sub" and ((pos[0] == "const" and type(pos[1]) is int) or (pos[0] == "unop" and pos[1] == "USub" and pos[2][0] == "const" and type(pos[2][1]) is int)):
+            return simp(subst(v[1][2], {tg: ("sub", it, pos)}))
+        if k == "item" and isinstance(pos, int):
+            return simp(subst(v[1][2], {tg: ("item", it, pos)}))
+        if k == "item" and isinstance(pos, tuple) and pos and pos[0] == "star":
+            return simp(("comp", "list", v[1][2], ((tg, ("item", it, pos), ()),)))
+    # a record keyed by literal names: dict(zip(("a", "b"), X))["b"] is X[1]
+    if k == "sub" and v[2][0] == "const" and v[1][0] == "call" and v[1][1] == ("global", "dict") and len(v[1][2]) == 1 and not v[1][3] \
+            and v[1][2][0][0] == "call" and v[1][2][0][1] == ("global", "zip") and len(v[1][2][0][2]) == 2 and not v[1][2][0][3] \
+            and v[1][2][0][2][0][0] in ("tuple", "list") and all(e[0] == "const" for e in v[1][2][0][2][0][1]):
+        names = [e[1] for e in v[1][2][0][2][0][1]]
+        if names.count(v[2][1]) == 1:
+            return simp(("sub", v[1][2][0][2][1], ("const", names.index(v[2][1]))))
     # "ab" * 3
     if k == "binop" and v[1] == "Mult" and {v[2][0], v[3][0]} == {"const"}:
         a, b = v[2][1], v[3][1]
@@ -1458,6 +1642,9 @@ def simp(v):
             n = hi[3] if hi[2] == lo else hi[2] if hi[3] == lo else None
             if n is not None:
                 return ("binop", "Add", lo, ("elem", ("call", ("global", "range"), (n,), ()), v[2]))
+    # every element of itertools.repeat(c) is c  (`zip(repeat(sign), rows)`: a constant column of a table)
+    if k == "elem" and v[1][0] == "call" and v[1][1] in (("global", "repeat"), ("attr", ("global", "itertools"), "repeat")) and len(v[1][2]) == 1 and not v[1][3]:
+        return v[1][2][0]
     if k == "elem" and v[1][0] in ("phi", "ifexp"):
         return ("phi", v[1][1], simp(("elem", v[1][2], v[2])), simp(("elem", v[1][3], v[2])))
     if k == "elem":
@@ -1505,6 +1692,59 @@ def summarise_appends(flow) -> dict:
             continue
         out[("acc", name)] = ("comp", "list", val, ((bv, base, ()),))
     return out
+
+
+def summarise_memos(flow) -> list:
+    """Memo tables: a local dict filled by ONE store `D[K(x)] = G(x)` inside one loop `for x in S` (one loop more than the
+    initialisation `D = {}`; unguarded or guarded by `K(x) not in D` only; no other write to D), where key and value depend on the
+    iteration only through the loop's element x.  A later read `D[K(x')]` is then `G(x')` -- the entry stored for the first x with
+    the same key, which has the same value because G depends on x through what the key determines (the same standing assumption
+    as `Index(ListComp(f), S.index(r)) => f(r)`).  -> [(name, key pattern, value template, pattern variable)] for
+    expand_memos; nothing is substituted by the engine itself."""
+    out = []
+    by = {}
+    for f in flow.facts:
+        if isinstance(f.target, str) and f.kind in ("init", "append", "store", "augstore", "remove", "mutate"):
+            by.setdefault(f.target, []).append(f)
+    for name, fs in by.items():
+        inits = [f for f in fs if f.kind == "init"]
+        stores = [f for f in fs if f.kind == "store"]
+        if len(inits) != 1 or len(stores) != 1 or len(fs) != 2:
+            continue
+        i0, s0 = inits[0], stores[0]
+        if simp(i0.value) not in (("dict", ()), ("call", ("global", "dict"), (), ())) or s0.index is None or s0.value is None:
+            continue
+        if len(s0.loops) != len(i0.loops) + 1 or s0.loops[:len(i0.loops)] != i0.loops or s0.seq < i0.seq or s0.loops[-1].kind != "for":
+            continue
+        lp = s0.loops[-1]
+        key, val = simp(s0.index), simp(s0.value)
+        extra = [(simp(c), pol) for c, pol in s0.guards[len(i0.guards):]]
+        if list(s0.guards[:len(i0.guards)]) != list(i0.guards) or extra not in ([], [(("cmp", ("In",), (key, ("acc", name))), False)]):
+            continue
+        dep = lambda t: isinstance(t, tuple) and len(t) == 3 and t[0] in ("elem", "idx", "key", "val", "carried", "after") and t[2] == lp.id
+        atoms = {t for t in walk(key) if dep(t)}
+        if len(atoms) != 1 or next(iter(atoms))[0] != "elem":
+            continue
+        atom = next(iter(atoms))
+        if {t for t in walk(val) if dep(t)} - atoms or contains(val, lambda t: t == ("acc", name) or (isinstance(t, tuple) and t and t[0] in ("unknown", "mutated"))):
+            continue
+        var = V("memo-element")
+        out.append((name, subst(key, {atom: var}), val, atom))
+    return out
+
+
+def expand_memos(v, memos):
+    """`v` with every read `D[k]` of a memo table (summarise_memos) replaced by the value stored under that key"""
+    if not isinstance(v, tuple) or not memos:
+        return v
+    v = tuple(expand_memos(x, memos) if isinstance(x, tuple) else x for x in v)
+    if len(v) == 3 and v[0] == "sub" and v[1][0] == "acc":
+        for name, kpat, val, atom in memos:
+            if v[1][1] == name:
+                b = match(kpat, simp(v[2]))
+                if b is not None and "memo-element" in b:
+                    return simp(subst(val, {atom: b["memo-element"]}))
+    return v
 
 
 # ------------------------------------------------------------------ accumulators and literal-dict loops, read back as values
